@@ -1921,12 +1921,13 @@ Section Cover.
 
   (* the record after a directory IN_MOVED_FROM is its IN_MOVED_TO: the candidate is dropped, then the loop body *)
   Lemma read_one_after_from t r k acc e (b : bool) x : is_moved_to (k_mask e) = true ->
+    amem N.eqb (k_wd e) (pfw r) = true ->
     pend r = (if c_fix_moveout C && b then Some (k_cookie e, x) else None) ->
     read_one C t (r, k, acc) e =
     read_one_body C t ({| wfp := wfp r; pfw := pfw r; mvf := mvf r; calls := calls r; pend := None |}, k, acc) e.
   Proof.
-    intros Hm Hp. destruct (c_fix_moveout C && b) eqn:E.
-    - apply andb_true_iff in E as [Ef _]. unfold read_one. now rewrite (settle_pending_match C r k e _ _ Ef Hp Hm eq_refl).
+    intros Hm Hw Hp. destruct (c_fix_moveout C && b) eqn:E.
+    - apply andb_true_iff in E as [Ef _]. unfold read_one. now rewrite (settle_pending_match C r k e _ _ Ef Hp Hm eq_refl Hw).
     - rewrite read_one_body_eq by exact Hp. destruct r; cbn in *. now subst.
   Qed.
 
@@ -2142,7 +2143,8 @@ Section Cover.
     rewrite (read_one_from _ _ _ _ _ (dirname p)); try (vm_compute; reflexivity); [|cbn [mv_from kev k_wd]; now rewrite Cpp, Edp].
     cbn [mv_from kev k_cookie k_name k_mask]. rewrite SPp.
     rewrite (read_one_after_from _ _ _ _ _ (c_recursive C && is_directory (N.lor IN_MOVED_FROM IN_ISDIR)) p);
-      [|reflexivity | cbn [pend mv_to kev k_cookie]; rewrite Hpd, andb_assoc; reflexivity].
+      [|reflexivity | cbn [pfw mv_to kev k_wd]; unfold amem; now rewrite Cpq
+       | cbn [pend mv_to kev k_cookie]; rewrite Hpd, andb_assoc; reflexivity].
     cbn [wfp pfw mvf calls].
     set (r1 := {| wfp := wfp r; pfw := pfw r; mvf := aset N.eqb c p (mvf r); calls := calls r; pend := None |}).
     rewrite (read_one_to_rekey _ r1 _ _ _ (dirname q) p (kw_wd kwe)); try (vm_compute; reflexivity);
@@ -2225,6 +2227,74 @@ Section Cover.
     change (is_moved_from IN_IGNORED) with false. change (is_moved_to IN_IGNORED) with false.
     change (is_ignored IN_IGNORED) with true. change (is_directory IN_IGNORED) with false. cbv iota.
     cbn [pfw wfp mvf calls]. rewrite Hp, Hw. apply N.eqb_neq in Hne. rewrite Hne. rewrite andb_false_r. reflexivity.
+  Qed.
+
+  (* Rename of a directory inside the tree (to a fresh name): the moved directory and every directory below it carry
+     the new prefix *)
+  Theorem step_rename_dir_inside w k r p q w' ep : RSync w k r -> npath p -> npath q -> c_recursive C = true ->
+    N.land IN_MOVED_FROM (c_mask C) <> 0%N -> N.land IN_MOVED_TO (c_mask C) <> 0%N ->
+    apply_op w (Rename p q) = Some w' ->
+    flookup p (w_fs w) = Some ep -> f_dir ep = true -> scope p -> p <> root -> scope q -> flookup q (w_fs w) = None ->
+    let k1 := kernel_op k (w_fs w) (Rename p q) in
+    exists r' k' evs, read_batch C (w_fs w') (r, drainq k1, []) (k_queue k1) = Done (r', k', evs) /\ RSync w' k' r'.
+  Proof.
+    intros S Np Nq Hrec Hmf Hmt Ha Elp Dep Sp Hpr Sq Elq k1. destruct S as [W Hr I Cv Hq Hpd].
+    assert (W' : wf_fs w') by exact (wf_apply_op w (Rename p q) w' W (conj Np Nq) Ha).
+    destruct (rename_inv w p q w' W Np Nq Ha) as (ep' & t1 & Elp' & Hne & Hupq & Edq & -> & Hbelow & Hq1).
+    assert (ep' = ep) by congruence. subst ep'.
+    destruct Hq1 as [[_ ->]|(v & Ev & _)]; [|congruence].
+    destruct (flookup_some _ _ _ Elp) as [Hep Eep].
+    assert (Hqr : q <> root).
+    { intros E. destruct Hr as (er & Her & Eer & _). apply flookup_none in Elq. apply Elq. rewrite E, <- Eer. now apply in_map. }
+    assert (Fq : fisdir q (w_fs w) = false) by (unfold fisdir; now rewrite Elq).
+    assert (Fp : fisdir p (w_fs w) = true) by (unfold fisdir; now rewrite Elp).
+    set (t' := frename p q (w_fs w)) in *.
+    set (kf := {| k_watches := k_watches k; k_next_wd := k_next_wd k; k_queue := []; k_next_cookie := k_next_cookie k + 1 |}).
+    destruct (rename_dir_rekey w k r p q ep t' kf W Hr I Cv Hpd Np Nq Hrec Elp Dep Sp Hpr Sq Hqr Hne Hupq Hbelow Edq)
+      as (kwp & kwq & kwe & r'' & evs0 & Cwp & Cwq & Cep & Hrd1 & Hmv & Hpd2 & F & Pf & T & Hsafe0).
+    subst k1. cbn [kernel_op w_fs]. rewrite Fq.
+    rewrite rename_kernel; [|exact Hq|].
+    2:{ intros kw Hk. rewrite (wi_mask _ _ _ I kw Hk). now split. }
+    rewrite Cwp, Cwq, Fp. unfold drainq, kset_queue. cbn [k_watches k_next_wd k_queue k_next_cookie app]. fold kf.
+    rewrite Hrd1. eexists _, _, _. split; [reflexivity|].
+    assert (Hin' : forall e, In e (w_fs w) -> In (ren p q e) t').
+    { intros e He. unfold t'. rewrite frename_map. now apply in_map. }
+    assert (Hnq : forall e, In e (w_fs w) -> f_path e <> q).
+    { intros e He E. apply flookup_none in Elq. apply Elq. rewrite <- E. now apply in_map. }
+    assert (Urp : under root p = true).
+    { unfold scope in Sp. rewrite Hrec in Sp. destruct Sp as [Sp'|Sp']; [contradiction | exact Sp']. }
+    destruct Hr as (er & Her & Eer & Der).
+    assert (Hren_root : ren p q er = er).
+    { unfold ren. rewrite Eer. destruct (beqb root p) eqn:E; [apply beqb_eq in E; congruence|].
+      now rewrite (under_antisym _ _ Urp). }
+    constructor.
+    - exact W'.
+    - exists er. cbn [w_fs]. split; [|auto]. rewrite <- Hren_root. now apply Hin'.
+    - cbn [w_fs]. constructor; cbn [kf k_watches k_next_wd k_next_cookie]; try apply I.
+      + intros kw Hk. destruct (wi_exact _ _ _ I kw Hk) as (e & He & De & Se & Ie & Pe & We).
+        assert (Ce : cov k r e kw).
+        { split; [|split]; try assumption. apply watch_of_ino_in; [apply I | assumption | congruence]. }
+        destruct (F e kw He De Se (Hnq e He) Ce) as [F1 F2].
+        exists (ren p q e). rewrite ren_path, ren_dir, ren_ino. repeat split; try assumption.
+        * now apply Hin'.
+        * now apply scope_rk.
+      + intros y wd Hy. destruct (T y wd Hy) as (e & kw & He & De & Se & Hnq' & Ce & Ewd & Ey).
+        destruct (F e kw He De Se Hnq' Ce) as [_ F2].
+        destruct Ce as (Cw' & _). destruct (watch_of_ino_some _ _ _ Cw') as [Hk _].
+        split; [exists kw; now split|]. rewrite <- Ewd. now rewrite Ey.
+      + rewrite Hmv. apply mvf_aset_lt; [exact 0%N | apply I].
+    - cbn [w_fs]. intros e' He' De' Se'. unfold t' in He'. rewrite frename_map in He'.
+      apply in_map_iff in He' as (e & <- & He).
+      rewrite ren_dir in De'. rewrite ren_path in Se'.
+      assert (Se : scope (f_path e)).
+      { unfold rk in Se'. destruct (beqb (f_path e) p) eqn:E1; [apply beqb_eq in E1; now rewrite E1|].
+        destruct (under p (f_path e)) eqn:E2; [|exact Se']. unfold scope. rewrite Hrec. right.
+        eapply under_trans; eassumption. }
+      destruct (Cv e He De' Se) as (kw & Ce). destruct (F e kw He De' Se (Hnq e He) Ce) as [F1 F2].
+      exists kw. unfold cov. rewrite ren_ino, ren_path. split; [|split]; try assumption.
+      destruct Ce as (Cw' & _). rewrite (watch_of_ino_ext k kf); [exact Cw' | reflexivity].
+    - reflexivity.
+    - exact Hpd2.
   Qed.
 
   Theorem step_rename_dir_over w k r p q w' ep v : RSync w k r -> npath p -> npath q -> c_recursive C = true ->
@@ -2762,7 +2832,7 @@ Section Cover.
     exists r0 k0 w' k' r', construct C kinit (w_fs w) = Some (r0, k0) /\ rrun w k0 r0 ops = Some (w', k', r') /\
       wf_fs w' /\ Cover (w_fs w') k' r'.
   Proof.
-    intros M W Hroot Hc. destruct (construct_cover w W Hroot) as (r0 & k0 & Hcons & I & Cv & Hq & _).
+    intros M W Hroot Hc. destruct (construct_cover w W Hroot) as (r0 & k0 & Hcons & I & Cv & Hq & _ & Hp0).
     assert (S : RSync w k0 r0) by (constructor; try assumption; now apply fisdir_in).
     destruct (cover_sequential ops M w k0 r0 S Hc) as (w' & k' & r' & Hrun & S').
     exists r0, k0, w', k', r'. split; [assumption|]. split; [assumption|]. split; apply S'.
@@ -2958,9 +3028,9 @@ Proof.
   cbn [kset_queue k_queue app]. rewrite (kpush_snoc [kev kw IN_CREATE false 0 name] (kev kw IN_OPEN false 0 name)) by (vm_compute; discriminate).
   cbn [app read_batch].
   assert (Hsp : src_path_of (f_path de) name = p) by (unfold src_path_of; destruct name; [discriminate Vn | exact Ejn]).
-  rewrite (read_one_inert C _ _ _ _ _ (f_path de)); [|unfold inert; repeat split; vm_compute; reflexivity | exact Cp].
-  rewrite (read_one_inert C _ _ _ _ _ (f_path de)); [|unfold inert; repeat split; vm_compute; reflexivity | exact Cp].
-  rewrite (read_one_inert C _ _ _ _ _ (f_path de)); [|unfold inert; repeat split; vm_compute; reflexivity | exact Cp].
+  rewrite (read_one_inert C _ _ _ _ _ (f_path de) Hpd); [|unfold inert; repeat split; vm_compute; reflexivity | exact Cp].
+  rewrite (read_one_inert C _ _ _ _ _ (f_path de) Hpd); [|unfold inert; repeat split; vm_compute; reflexivity | exact Cp].
+  rewrite (read_one_inert C _ _ _ _ _ (f_path de) Hpd); [|unfold inert; repeat split; vm_compute; reflexivity | exact Cp].
   unfold raw_ev, kev. cbn [k_wd k_mask k_cookie k_name app]. rewrite Hsp.
   eexists. reflexivity.
 Qed.
